@@ -19,13 +19,20 @@ open SSV.Gen.C14
 /-- modulus of `uint64` -/
 def M : Nat := 18446744073709551616
 
-abbrev Counters := Field → Nat
+/-- six `uint64` figures (a `trafficCollector`, or a `stats.Traffic` value). Kept as a finite table,
+not as a function: a definition returning a function is compiled with one more argument and would
+be re-evaluated on every look-up. A counter that was never written is 0 (Go zero value). -/
+structure Counters where
+  l : List (Field × Nat)
 
-def Counters.zero : Counters := fun _ => 0
+def Counters.zero : Counters := ⟨[]⟩
 
-/- `noinline`: the arguments of a call are evaluated before the call, so the stored value is computed once
-(inlined, the compiler may move the value expression under the `fun`, re-evaluating it on every look-up). -/
-@[noinline] def Counters.set (c : Counters) (f : Field) (v : Nat) : Counters := fun g => if g = f then v else c g
+def Counters.get (c : Counters) (f : Field) : Nat :=
+  match c.l.lookup f with
+  | some v => v
+  | none => 0
+
+def Counters.set (c : Counters) (f : Field) (v : Nat) : Counters := ⟨(f, v) :: c.l⟩
 
 /-- `sc.tc` (sessions without a username) or the collector of a named user -/
 inductive Target where
@@ -39,7 +46,7 @@ def target (username : String) : Target :=
 
 abbrev Store := Target → Counters
 
-@[noinline] def Store.upd (s : Store) (t : Target) (f : Field) (v : Nat) : Store :=
+def Store.upd (s : Store) (t : Target) (f : Field) (v : Nat) : Store :=
   fun t' => if t' = t then (s t').set f v else s t'
 
 structure Shared where
@@ -80,9 +87,9 @@ def Visit.idle : Visit := { t := .anon, lit := Counters.zero, pc := [] }
 /-- one atomic operation (Go: `atomic.Uint64.Add / Load / Swap(0)`) -/
 def exec (ctr : Store) (v : Visit) (s : BStep) (rest : List BStep) : Store × Visit :=
   match s with
-  | .add f a => (ctr.upd v.t f ((ctr v.t f + a) % M), { v with pc := rest })
-  | .load f out => (ctr, { v with lit := v.lit.set out (ctr v.t f), pc := rest })
-  | .swap0 f out => (ctr.upd v.t f 0, { v with lit := v.lit.set out (ctr v.t f), pc := rest })
+  | .add f a => (ctr.upd v.t f (((ctr v.t).get f + a) % M), { v with pc := rest })
+  | .load f out => (ctr, { v with lit := v.lit.set out ((ctr v.t).get f), pc := rest })
+  | .swap0 f out => (ctr.upd v.t f 0, { v with lit := v.lit.set out ((ctr v.t).get f), pc := rest })
 
 /-! ### Collect* threads -/
 
@@ -171,7 +178,7 @@ def shapeOf (reset : Bool) : AggShape :=
 
 /-- `(*Traffic).Add`: the `+=` statements of `Gen.trafficAdd`, each wrapping at 2^64 -/
 def applyAdd (tot lit : Counters) : Counters :=
-  trafficAdd.foldl (fun acc p => acc.set p.1 ((acc p.1 + lit p.2) % M)) tot
+  trafficAdd.foldl (fun acc p => acc.set p.1 ((acc.get p.1 + lit.get p.2) % M)) tot
 
 inductive Phase where
   | anon                                    -- s.Traffic = sc.tc.<k>()
